@@ -752,7 +752,7 @@ pub fn generate(tier: &str, seed: u64, out: &Path, nshards: usize, replay: Optio
                 }
             }
         }
-        let scale = if thorough { 4 } else { 1 };
+        let scale = if thorough { 8 } else { 1 };
         // 1. the sampling code of rand against the word stream
         for _ in 0..(48 * scale) {
             let s = rng.next_u64() >> rng.below(64);
@@ -794,7 +794,7 @@ pub fn generate(tier: &str, seed: u64, out: &Path, nshards: usize, replay: Optio
         strip_docs(&mut pj);
         let n = pj["types"].as_array().unwrap().len() as u32;
         let ids: Vec<u32> = if thorough { (0..n).collect() } else { (0..128).map(|_| rng.below(n as usize) as u32).collect() };
-        let sd = seeds(&mut rng, 2);
+        let sd = seeds(&mut rng, if thorough { 4 } else { 2 });
         g.push_registry("polkadot", "polkadot", &pj, &ids, &sd, if thorough { 58 } else { 8 }, false);
     }
 
